@@ -5,13 +5,16 @@
    case) and of fuel exhaustion.  Proved: the lexer always terminates within its fuel on every byte
    sequence and every chunking (C06_lexer_total); code accepted by the bytecode verifier runs to RET, to a
    documented runtime error or to the excluded case, within the fuel the API supplies (C06_vm_total);
-   LoadProg of any truncated dump is an error, never a panic (C13); Bind never panics (C15).  Validated by
-   the differential run only: that the parser's fuel is never exhausted (the model reports `oof`, which
-   has never been observed), and that every compiled program passes the verifier (it is checked on every
+   LoadProg of any truncated dump is an error, never a panic (C13); Bind never panics (C15).  The parser's fuel
+   is never exhausted on an accepted input (C06_parser_fuel = T2_accept_no_oof) and a compiled program never
+   ends in an internal error or at a panic site (C06_compiled_runs_clean, from T1 and T2).  Validated by
+   the differential run only: fuel on REJECTED inputs (the model reports `oof`, never observed), and that
+   every compiled program passes the verifier (it is checked on every
    program the real compiler produces).  Partial: Go stack exhaustion and allocator failure are outside
    the model; the property excludes them. *)
 From BCL Require Import Model.Api Model.Verify Proofs.LineCalcProofs Proofs.LexerProofs Proofs.ParserInvProofs Proofs.OptionsProofs Proofs.VerifyProofs.
 Open Scope N_scope.
+From BCL Require Import Model.Compile Spec.Syntax Spec.AstSem Proofs.T2Expr Proofs.T2Proofs Proofs.T1Expr Proofs.T1Proofs Proofs.Language.
 
 Theorem C06_lexer_total : forall cs, exists tk,
   last_opt (fst (lex cs)) = Some tk /\ (ttyp tk = tEOF \/ ttyp tk = tFAIL).
@@ -51,6 +54,22 @@ Theorem C06_error_reported : forall ts,
   hadError (parse_tokens ts) = true <-> log (parse_tokens ts) <> [].
 Proof. first [exact ParserInvProofs.C17_error_iff_log | apply ParserInvProofs.C17_error_iff_log]. Qed.
 Print Assumptions C06_error_reported.
+
+Theorem C06_parser_fuel : forall ts, eshape ts -> hadError (parse_tokens ts) = false ->
+  oof (parse_tokens ts) = false /\ ppanic (parse_tokens ts) = false.
+Proof. first [exact T2Proofs.T2_accept_no_oof | apply T2Proofs.T2_accept_no_oof]. Qed.
+Print Assumptions C06_parser_fuel.
+
+Theorem C06_compiled_runs_clean : forall name src,
+  let pr := parse_whole name src in
+  pr_ok pr = true -> pr_oof pr = false -> pr_panic pr = false ->
+  ps_constants (pr_stats pr) < 2^64 ->
+  match rr_res (execute (pr_prog pr) false false) with
+  | VOk | VErr _ _ | VPanic PExcluded => True
+  | VPanic _ | VInternal _ => False
+  end.
+Proof. first [exact Language.compiled_runs_clean | apply Language.compiled_runs_clean]. Qed.
+Print Assumptions C06_compiled_runs_clean.
 
 (* the literals and limits that used to panic are errors in the model (and, by the differential run, in the code) *)
 Example C06_example :
